@@ -69,20 +69,27 @@ int
 str_net_to_ss(const char *buf, size_t buf_size, sockaddr_storage_p addr,
     uint16_t *preflen_ret) {
 	int error;
-	const char *ptm;
-	uint16_t preflen;
+	size_t i, preflen_str_size;
+	const char *ptm, *preflen_str = NULL;
+	uint16_t preflen = 0;
 
 	if (NULL == buf || 0 == buf_size || NULL == addr)
 		return (EINVAL);
 
 	ptm = mem_rchr(buf, buf_size, '/'); /* net-preflen delimiter. */
 	if (NULL != ptm) {
-		ptm ++;
-		preflen = str2u16(ptm, (size_t)(buf_size - (size_t)(ptm - buf)));
-		ptm --;
+		preflen_str = (ptm + 1);
+		preflen_str_size = (size_t)(buf_size - (size_t)(preflen_str - buf));
+		/* 1-3 digits only: no junk, no uint16_t wrap. */
+		if (0 == preflen_str_size || 3 < preflen_str_size)
+			return (EINVAL);
+		for (i = 0; i < preflen_str_size; i ++) {
+			if ('0' > preflen_str[i] || '9' < preflen_str[i])
+				return (EINVAL);
+		}
+		preflen = str2u16(preflen_str, preflen_str_size);
 	} else {
 		ptm = (const char*)(buf + buf_size);
-		preflen = 0xffff;
 	}
 
 	error = sa_addr_from_str(addr, buf, (size_t)(ptm - buf));
@@ -91,13 +98,17 @@ str_net_to_ss(const char *buf, size_t buf_size, sockaddr_storage_p addr,
 
 	switch (addr->ss_family) {
 	case AF_INET:
-		if (0xffff == preflen) {
+		if (NULL == preflen_str) {
 			preflen = 32;
+		} else if (32 < preflen) {
+			return (EINVAL);
 		}
 		break;
 	case AF_INET6:
-		if (0xffff == preflen) {
+		if (NULL == preflen_str) {
 			preflen = 128;
+		} else if (128 < preflen) {
+			return (EINVAL);
 		}
 		break;
 	}
